@@ -19,7 +19,9 @@ RULE = ("(1) every message actually sent by the 11 algorithms in real runs under
         "sharing a type name must keep their own fields); domains and tuples of 11-14 elements; (7) real HTTP loopback: "
         "two Agents with HttpCommunicationLayer on 127.0.0.1, harvested and generated messages posted on one for a "
         "computation of the other, compared after requests.post -> MPCHttpHandler -> from_repr -> Messaging queue "
-        "(content, priority, sender, destination); non-trivial = object with a nested structure (relation, "
+        "(content, priority, sender, destination), every loopback run carrying inf / -inf / 2^62 / -1.5e300; (8) 3 (quick) / 10 "
+        "(thorough) real multi-process runs `pydcop solve --mode process` (one spawned OS process per agent, HTTP between "
+        "processes), DPOP's result judged against the brute-force optimum; non-trivial = object with a nested structure (relation, "
         "computation definition, dict or path table); distinct by hash(type, encoded form)")
 
 
